@@ -791,3 +791,28 @@ Qed.
 
 Lemma firstn_le {A} n (l : list A) : (length (firstn n l) <= n)%nat.
 Proof. apply firstn_le_length. Qed.
+
+(* ---------------------------------------------------------------------------------- *)
+(* HandleInviteV3                                                                       *)
+(* ---------------------------------------------------------------------------------- *)
+
+Lemma handle_invite_v3_ok x i :
+  er_out (handle_invite_v3 x i) = OOk ->
+  invite_v3_admissible x i = true /\
+  exists sid v, v3_sender_id x = Some sid /\
+    er_event (handle_invite_v3 x i) = Some (set_invite_room_state v (v3_built x sid)).
+Proof.
+  unfold handle_invite_v3, invite_v3_admissible.
+  destruct (version_known (iv_version i)); simpl; [|discriminate].
+  destruct (bytes_eqb (v3_proto_room x) (iv_req_room i)); simpl; [|discriminate].
+  destruct (bytes_eqb (v3_proto_type x) m_room_member); simpl; [|discriminate].
+  destruct (v3_proto_membership x) as [m|] eqn:Epm; simpl; [|discriminate].
+  destruct (bytes_eqb m s_invite); simpl; [|discriminate].
+  destruct (v3_sender_id x) as [sid|]; simpl; [|discriminate].
+  destruct (v3_build_ok x); simpl; [|discriminate].
+  intro H. apply invite_common_ok in H. destruct H as [[known [Ek Hm]] [v B]].
+  split.
+  - rewrite Ek. destruct known; [|reflexivity].
+    destruct (Hm eq_refl) as [cur [Ec En]]. rewrite Ec, En. reflexivity.
+  - exists sid, v. split; [reflexivity|]. unfold v3_built in *. rewrite ?Epm in *. exact B.
+Qed.
